@@ -145,3 +145,21 @@ V('rd-ptb-short-call', RD, "                    combinator.op_string,\n         
 V('rd-auto-unk-label', RD, "                cat, left, right, rule.op_string, rule.op_symbol, head_is_left\n", "                cat, left, right, 'unk', '<unk>', head_is_left\n", ['C12'])
 V('rd-silent-rename-rule', RD, "            rule = guess_combinator_by_triplet(\n                self.binary_rules, cat, left.cat, right.cat\n            )\n            return Tree.make_binary(\n                cat, left, right, rule.op_string, rule.op_symbol, head_is_left\n",
   "            found = guess_combinator_by_triplet(\n                self.binary_rules, cat, left.cat, right.cat\n            )\n            return Tree.make_binary(\n                cat, left, right, op_string=found.op_string, op_symbol=found.op_symbol, head_is_left=head_is_left\n", ['C12'], expect='silent')
+
+# ---------------------------------------------------------------- cat.py (C13, C05)
+CAT = 'depccg/cat.py'
+V('c-atom-eq-no-feature', CAT, "            self.base == other.base\n            and self.feature == other.feature\n", "            self.base == other.base\n", ['C13'])
+V('c-functor-eq-no-slash', CAT, "            self.left == other.left\n            and self.slash == other.slash\n            and self.right == other.right", "            self.left == other.left\n            and self.right == other.right", ['C13'])
+V('c-functor-xor-eq-right', CAT, "            and self.right ^ other.right", "            and self.right == other.right", ['C13'])
+V('c-functor-xor-no-slash', CAT, "            self.left ^ other.left\n            and self.slash == other.slash\n", "            self.left ^ other.left\n", ['C13'])
+V('c-atom-not-frozen', CAT, "@dataclass(frozen=True, repr=False)\nclass Atom(Category):", "@dataclass(repr=False)\nclass Atom(Category):", ['C13'])
+V('c-functor-eq-false', CAT, "@dataclass(frozen=True, repr=False)\nclass Functor(Category):", "@dataclass(frozen=True, repr=False, eq=False)\nclass Functor(Category):", ['C13'])
+V('c-atom-clear-inverted', CAT, "if self.feature in args:", "if self.feature not in args:", ['C13'])
+V('c-functor-clear-left-only', CAT, "            self.left.clear_features(*args),\n            self.right.clear_features(*args)", "            self.left.clear_features(*args),\n            self.right", ['C13'])
+V('c-truediv-backslash', CAT, "return Functor(self, '/', other)", "return Functor(self, '\\\\', other)", ['C13'])
+V('c-atom-eq-str-base', CAT, "class Atom(Category):\n    base: str\n    feature: Feature = UnaryFeature()\n\n    def __str__(self) -> str:\n        feature = str(self.feature)\n        if len(feature) == 0:\n            return self.base\n        return f'{self.base}[{feature}]'\n\n    def __eq__(self, other: object) -> bool:\n        if isinstance(other, str):\n            return str(self) == other",
+  "class Atom(Category):\n    base: str\n    feature: Feature = UnaryFeature()\n\n    def __str__(self) -> str:\n        feature = str(self.feature)\n        if len(feature) == 0:\n            return self.base\n        return f'{self.base}[{feature}]'\n\n    def __eq__(self, other: object) -> bool:\n        if isinstance(other, str):\n            return self.base == other", ['C13'])
+V('c-ternary-eq-no-kv3', CAT, "            and self.kv2 == other.kv2\n            and self.kv3 == other.kv3", "            and self.kv2 == other.kv2", ['C13'])
+V('c-functor-hash-id', CAT, "    @property\n    def functor(self)", "    def __hash__(self):\n        return id(self)\n\n    @property\n    def functor(self)", ['C13'])
+V('c-silent-functor-explicit-hash', CAT, "    @property\n    def functor(self)", "    def __hash__(self):\n        return hash((self.left, self.slash))\n\n    @property\n    def functor(self)", ['C13'], expect='silent')
+V('c-silent-eq-reordered', CAT, "            self.base == other.base\n            and self.feature == other.feature\n", "            self.feature == other.feature\n            and self.base == other.base\n", ['C13'], expect='silent')
